@@ -10,7 +10,9 @@ package drummer
 // nodeHostTTL, tickIntervalSecond, unknownRegion.
 // Reads VERIF_IN, writes VERIF_OUT, asserts nothing.
 //
-// input line:  C <json?> <tick>
+// input line:  C|S <json?> <tick>      (C: a fresh scheduler object; S: the SAME Drummer/scheduler object as the previous
+//                                       line, as drummer.go does: d.scheduler is created once and every round calls
+//                                       updateSchedulerContext on it - a round's outcome must depend on its context only)
 //                <ndefs>  { id app nmembers member.. }
 //                <nview>  { key id cci nreps { key shard id addr tick first } }
 //                <nhosts> { key addr region tick nplog { shard replica } nshards { shard } }
@@ -196,6 +198,9 @@ func vschDumpReq(sb *strings.Builder, r *pb.NodeHostRequest) {
 		vschB(r.Join), vschB(r.Restore), vschNum("app", r.AppName))
 }
 
+// the long-lived objects of a sequence of rounds
+var vschDrummer *Drummer
+
 func vschRun(line []string) (out string) {
 	defer func() {
 		if r := recover(); r != nil {
@@ -215,9 +220,13 @@ func vschRun(line []string) (out string) {
 			panic(err)
 		}
 	}
-	s := &scheduler{randomSrc: src, config: getDefaultShardConfig()}
-	d := &Drummer{scheduler: s, nh: &dragonboat.NodeHost{}}
-	s.updateSchedulerContext(sc)
+	if line[0] != "S" || vschDrummer == nil {
+		s := &scheduler{config: getDefaultShardConfig()}
+		vschDrummer = &Drummer{scheduler: s, nh: &dragonboat.NodeHost{}}
+	}
+	d := vschDrummer
+	d.scheduler.randomSrc = src
+	d.scheduler.updateSchedulerContext(sc)
 	reqs, err := d.maintainShards()
 	if err != nil {
 		if errors.Is(err, errNotEnoughNodeHost) {
@@ -253,7 +262,7 @@ func TestVerifSched(t *testing.T) {
 	scn.Buffer(make([]byte, 1<<20), 1<<26)
 	for scn.Scan() {
 		f := strings.Fields(scn.Text())
-		if len(f) == 0 || f[0] != "C" {
+		if len(f) == 0 || (f[0] != "C" && f[0] != "S") {
 			continue
 		}
 		fmt.Fprintf(w, "%s\n", vschRun(f))
